@@ -873,3 +873,1310 @@ def regex_groups(A: Alphabet, pattern: str) -> list[tuple[DFA, int | None]]:
         g = av[0] if str(op) == "SUBPATTERN" else None
         out.append((_regex_node(A, op, av), g))
     return out
+
+
+# =====================================================================================
+# abstract string interpreter
+# =====================================================================================
+
+
+class AStr:
+    """Set of possible strings, split by provenance: `plain` (computed from inputs/constants only)
+    and `rand` (some part came from the random module)."""
+
+    __slots__ = ("plain", "rand")
+
+    def __init__(self, plain: DFA, rand: DFA | None = None):
+        self.plain = plain
+        self.rand = rand if rand is not None else L_empty(plain.K)
+
+    @property
+    def all(self) -> DFA:
+        return self.plain | self.rand
+
+    def map(self, f: Callable[[DFA], DFA]) -> "AStr":
+        return AStr(f(self.plain), f(self.rand))
+
+    def dead(self) -> bool:
+        return self.plain.is_empty() and self.rand.is_empty()
+
+    def key(self) -> tuple:
+        return ("S", _intern(self.plain), _intern(self.rand))
+
+
+class AInt:
+    """Some natural number (rendered by str()/f-strings in canonical decimal form)."""
+
+    def key(self) -> tuple:
+        return ("I",)
+
+
+class ASeq:
+    """Homogeneous sequence (tuple/list/generator) of abstract elements with lo <= len <= hi."""
+
+    def __init__(self, elem: Any, lo: int, hi: int | None):
+        self.elem, self.lo, self.hi = elem, lo, hi
+
+    def key(self) -> tuple:
+        return ("Q", vkey(self.elem), self.lo, self.hi)
+
+
+class AObj:
+    def __init__(self, kind: str, **attrs: Any):
+        self.kind = kind
+        self.attrs = attrs
+
+    def key(self) -> tuple:
+        return ("O", self.kind, tuple(sorted((k, vkey(v)) for k, v in self.attrs.items())))
+
+
+class _Unknown:
+    def __repr__(self) -> str:
+        return "UNKNOWN"
+
+    def key(self) -> tuple:
+        return ("U",)
+
+
+UNKNOWN = _Unknown()
+_INTERN: dict = {}
+
+
+def _intern(d: DFA) -> int:
+    k = d.key
+    i = _INTERN.get(k)
+    if i is None:
+        i = len(_INTERN)
+        _INTERN[k] = i
+    return i
+
+
+def vkey(v: Any) -> Any:
+    if hasattr(v, "key") and not isinstance(v, (str, bytes)):
+        return v.key()
+    if isinstance(v, (tuple, list)):
+        return (type(v).__name__, tuple(vkey(x) for x in v))
+    if isinstance(v, (set, frozenset)):
+        return ("set", tuple(sorted(map(repr, v))))
+    if isinstance(v, dict):
+        return ("dict", tuple(sorted((repr(k), vkey(x)) for k, x in v.items())))
+    return ("c", type(v).__name__, repr(v))
+
+
+class State:
+    __slots__ = ("env", "meta")
+
+    def __init__(self, env: dict | None = None, meta: dict | None = None):
+        self.env = env or {}
+        self.meta = meta or {}
+
+    def set(self, name: str, v: Any) -> "State":
+        e = dict(self.env)
+        e[name] = v
+        return State(e, self.meta)
+
+    def with_meta(self, k: str, v: Any) -> "State":
+        m = dict(self.meta)
+        m[k] = v
+        return State(self.env, m)
+
+    def key(self) -> tuple:
+        return (tuple(sorted((k, vkey(v)) for k, v in self.env.items())), tuple(sorted(self.meta.items())))
+
+
+class Flow:
+    def __init__(self) -> None:
+        self.normal: list[State] = []
+        self.ret: list[tuple[Any, State]] = []
+        self.brk: list[State] = []
+        self.cont: list[State] = []
+        self.exc: list[tuple[str, State, ast.AST]] = []
+
+    def absorb(self, o: "Flow") -> None:
+        self.ret += o.ret
+        self.brk += o.brk
+        self.cont += o.cont
+        self.exc += o.exc
+
+
+_CMP_FLIP = {ast.Lt: ast.Gt, ast.Gt: ast.Lt, ast.LtE: ast.GtE, ast.GtE: ast.LtE, ast.Eq: ast.Eq, ast.NotEq: ast.NotEq}
+_STR_PREDS = {
+    "isalpha": str.isalpha, "isdigit": str.isdigit, "isalnum": str.isalnum, "isdecimal": str.isdecimal,
+    "isspace": str.isspace, "isascii": str.isascii, "islower": None, "isupper": None,
+}
+
+
+def _dotted(e: ast.AST) -> str | None:
+    if isinstance(e, ast.Name):
+        return e.id
+    if isinstance(e, ast.Attribute):
+        b = _dotted(e.value)
+        return f"{b}.{e.attr}" if b else None
+    return None
+
+
+class SInterp:
+    """Forward abstract interpreter: sets of states, each mapping locals to concrete Python values
+    or abstract strings (regular languages).  Disjunctive (forks at conditions, joins nowhere but by
+    de-duplication at loop heads).  Unknown constructs raise Unsupported (-> ANALYSIS-ERROR)."""
+
+    def __init__(self, A: Alphabet, functions: dict[str, ast.AST] | None = None, consts: dict[str, ast.AST] | None = None,
+                 hooks: dict[str, Callable] | None = None, max_loop: int = 12):
+        self.A = A
+        self.K = A.K
+        self.functions = functions or {}
+        self.consts = consts or {}
+        self.hooks = hooks or {}
+        self.events: list[tuple] = []
+        self.max_loop = max_loop
+        self._const_cache: dict[str, Any] = {}
+        self.depth = 0
+
+    # ------------------------------------------------------------------ helpers
+    def lit(self, s: str) -> DFA:
+        return L_word(self.K, self.A.word(s)) if all(self._single(c) for c in s) else self._loose(s)
+
+    def _single(self, ch: str) -> bool:
+        a = self.A.atoms[self.A.atom_of(ch)]
+        return a.members is not None and len(a.members) == 1
+
+    def _loose(self, s: str) -> DFA:
+        out = L_eps(self.K)
+        for ch in s:
+            out = out.concat(L_chars(self.K, [self.A.atom_of(ch)]))
+        return out
+
+    def nat(self) -> DFA:
+        zero = self.A.word("0")
+        nz = self.A.of_chars("123456789")
+        dig = nz | set(zero)
+        return L_word(self.K, zero) | L_chars(self.K, nz).concat(L_chars(self.K, dig, 0, None))
+
+    def to_astr(self, v: Any) -> AStr:
+        if isinstance(v, AStr):
+            return v
+        if isinstance(v, str):
+            return AStr(self.lit(v))
+        if isinstance(v, AInt):
+            return AStr(self.nat())
+        if isinstance(v, bool) or v is None:
+            return AStr(self.lit(str(v)))
+        if isinstance(v, int):
+            return AStr(self.lit(str(v)))
+        raise Unsupported(f"cannot render {type(v).__name__} as a string")
+
+    def chars_of(self, v: Any) -> frozenset:
+        """Atoms of a concrete string used as a character set."""
+        if not isinstance(v, str):
+            raise Unsupported("character set argument is not a constant string")
+        return self.A.of_chars(v)
+
+    def event(self, *e: Any) -> None:
+        self.events.append(e)
+
+    # ------------------------------------------------------------------ calling analysed functions
+    def call_function(self, fn: ast.AST, args: dict[str, Any], meta: dict | None = None) -> list[tuple[Any, State]]:
+        """Interpret a function; returns (return value, final state) pairs.  Implicit return -> None."""
+        a = fn.args
+        env: dict[str, Any] = {}
+        pos = a.posonlyargs + a.args
+        defaults = dict(zip([p.arg for p in pos][len(pos) - len(a.defaults):], a.defaults)) if a.defaults else {}
+        for p, d in zip(a.kwonlyargs, a.kw_defaults):
+            if d is not None:
+                defaults[p.arg] = d
+        for p in pos + a.kwonlyargs:
+            if p.arg in args:
+                env[p.arg] = args[p.arg]
+            elif p.arg in defaults:
+                vs = self.eval(defaults[p.arg], State())
+                env[p.arg] = vs[0][0]
+            else:
+                env[p.arg] = UNKNOWN
+        self.depth += 1
+        if self.depth > 6:
+            raise Unsupported("call depth")
+        try:
+            f = self.exec_block(fn.body, [State(env, meta or {})])
+        finally:
+            self.depth -= 1
+        out = list(f.ret) + [(None, s) for s in f.normal]
+        for name, s, node in f.exc:
+            self.event("raise", name, node, s)
+        return out
+
+    # ------------------------------------------------------------------ statements
+    def exec_block(self, body: list[ast.stmt], states: list[State]) -> Flow:
+        flow = Flow()
+        cur = states
+        for s in body:
+            if not cur:
+                break
+            f = self.exec_stmt(s, cur)
+            flow.absorb(f)
+            cur = f.normal
+        flow.normal = cur
+        return flow
+
+    def exec_stmt(self, s: ast.stmt, states: list[State]) -> Flow:
+        flow = Flow()
+        if isinstance(s, (ast.Assign, ast.AnnAssign)):
+            if isinstance(s, ast.AnnAssign) and s.value is None:
+                flow.normal = states
+                return flow
+            targets = s.targets if isinstance(s, ast.Assign) else [s.target]
+            for st in states:
+                for v, st2 in self.eval_forking(s.value, st):
+                    for t in targets:
+                        st2 = self.assign(t, v, st2)
+                    flow.normal.append(st2)
+        elif isinstance(s, ast.AugAssign):
+            load = ast.BinOp(left=_as_load(s.target), op=s.op, right=s.value)
+            ast.copy_location(load, s)
+            for st in states:
+                for v, st2 in self.eval(load, st):
+                    flow.normal.append(self.assign(s.target, v, st2))
+        elif isinstance(s, ast.Expr):
+            if isinstance(s.value, ast.Constant):
+                flow.normal = states
+            else:
+                for st in states:
+                    flow.normal += [st2 for _v, st2 in self.eval(s.value, st)]
+        elif isinstance(s, ast.Return):
+            for st in states:
+                if s.value is None:
+                    flow.ret.append((None, st))
+                else:
+                    flow.ret += self.eval(s.value, st)
+        elif isinstance(s, ast.Raise):
+            name = "Exception"
+            if s.exc is not None:
+                e = s.exc.func if isinstance(s.exc, ast.Call) else s.exc
+                name = (_dotted(e) or "Exception").split(".")[-1]
+            flow.exc += [(name, st, s) for st in states]
+        elif isinstance(s, ast.If):
+            for st in states:
+                t, f = self.branch(s.test, st)
+                ft = self.exec_block(s.body, t) if t else Flow()
+                ff = self.exec_block(s.orelse, f) if f else Flow()
+                flow.absorb(ft)
+                flow.absorb(ff)
+                flow.normal += ft.normal + ff.normal
+        elif isinstance(s, (ast.For, ast.AsyncFor)):
+            self._loop_for(s, states, flow)
+        elif isinstance(s, ast.While):
+            self._loop_while(s, states, flow)
+        elif isinstance(s, (ast.With, ast.AsyncWith)):
+            cur = states
+            for item in s.items:
+                nxt = []
+                for st in cur:
+                    for v, st2 in self.eval(item.context_expr, st):
+                        if item.optional_vars is not None:
+                            st2 = self.assign(item.optional_vars, v, st2)
+                        nxt.append(st2)
+                cur = nxt
+            f = self.exec_block(s.body, cur)
+            flow.absorb(f)
+            flow.normal = f.normal
+        elif isinstance(s, ast.Try):
+            f = self.exec_block(s.body, states)
+            flow.ret += f.ret
+            flow.brk += f.brk
+            flow.cont += f.cont
+            normal = list(f.normal)
+            if s.orelse and normal:
+                fo = self.exec_block(s.orelse, normal)
+                flow.absorb(fo)
+                normal = fo.normal
+            for name, st, node in f.exc:
+                handled = False
+                for h in s.handlers:
+                    names = []
+                    if h.type is not None:
+                        for e in h.type.elts if isinstance(h.type, ast.Tuple) else [h.type]:
+                            names.append((_dotted(e) or "?").split(".")[-1])
+                    if h.type is None or name in names or "Exception" in names or "BaseException" in names:
+                        st2 = st.set(h.name, UNKNOWN) if h.name else st
+                        fh = self.exec_block(h.body, [st2])
+                        flow.absorb(fh)
+                        normal += fh.normal
+                        handled = True
+                        break
+                if not handled:
+                    flow.exc.append((name, st, node))
+            if s.finalbody:
+                ff = self.exec_block(s.finalbody, normal)
+                flow.absorb(ff)
+                normal = ff.normal
+            flow.normal = normal
+        elif isinstance(s, ast.Pass):
+            flow.normal = states
+        elif isinstance(s, ast.Break):
+            flow.brk = states
+        elif isinstance(s, ast.Continue):
+            flow.cont = states
+        elif isinstance(s, ast.Assert):
+            for st in states:
+                t, _f = self.branch(s.test, st)
+                flow.normal += t
+        elif isinstance(s, (ast.Import, ast.ImportFrom, ast.Global, ast.Nonlocal) + FuncNode):
+            flow.normal = states
+        else:
+            raise Unsupported(f"statement {type(s).__name__} at line {s.lineno}")
+        return flow
+
+    def _dedupe(self, states: list[State], seen: set) -> list[State]:
+        out = []
+        for st in states:
+            k = st.key()
+            if k not in seen:
+                seen.add(k)
+                out.append(st)
+        return out
+
+    def _loop_for(self, s: ast.AST, states: list[State], flow: Flow) -> None:
+        for st0 in states:
+            for it, st in self.eval(s.iter, st0):
+                if isinstance(it, (list, tuple, str)) and len(it) <= 16:
+                    cur = [st]
+                    broke: list[State] = []
+                    for x in it:
+                        cur = [self.assign(s.target, x, c) for c in cur]
+                        f = self.exec_block(s.body, cur)
+                        flow.ret += f.ret
+                        flow.exc += f.exc
+                        broke += f.brk
+                        cur = f.normal + f.cont
+                    if s.orelse and cur:
+                        fo = self.exec_block(s.orelse, cur)
+                        flow.absorb(fo)
+                        cur = fo.normal
+                    flow.normal += cur + broke
+                    continue
+                if isinstance(it, range):
+                    elem, lo = AInt(), len(it)
+                elif isinstance(it, ASeq):
+                    elem, lo = it.elem, it.lo
+                elif it is UNKNOWN:
+                    elem, lo = UNKNOWN, 0
+                else:
+                    raise Unsupported(f"iteration over {type(it).__name__}")
+                seen: set = set()
+                heads = self._dedupe([st], seen)
+                exits: list[State] = [st] if lo == 0 else []
+                broke = []
+                n = 0
+                while heads:
+                    n += 1
+                    if n > self.max_loop:
+                        raise Unsupported(f"loop at line {s.lineno} does not stabilise")
+                    f = self.exec_block(s.body, [self.assign(s.target, elem, h) for h in heads])
+                    flow.ret += f.ret
+                    flow.exc += f.exc
+                    broke += f.brk
+                    nxt = f.normal + f.cont
+                    exits += nxt
+                    heads = self._dedupe(nxt, seen)
+                if s.orelse and exits:
+                    fo = self.exec_block(s.orelse, exits)
+                    flow.absorb(fo)
+                    exits = fo.normal
+                flow.normal += exits + broke
+
+    def _loop_while(self, s: ast.While, states: list[State], flow: Flow) -> None:
+        seen: set = set()
+        heads = self._dedupe(list(states), seen)
+        exits: list[State] = []
+        broke: list[State] = []
+        n = 0
+        while heads:
+            n += 1
+            if n > self.max_loop:
+                raise Unsupported(f"loop at line {s.lineno} does not stabilise")
+            nxt: list[State] = []
+            for h in heads:
+                t, f = self.branch(s.test, h)
+                exits += f
+                if t:
+                    fb = self.exec_block(s.body, t)
+                    flow.ret += fb.ret
+                    flow.exc += fb.exc
+                    broke += fb.brk
+                    nxt += fb.normal + fb.cont
+            heads = self._dedupe(nxt, seen)
+        if s.orelse and exits:
+            fo = self.exec_block(s.orelse, exits)
+            flow.absorb(fo)
+            exits = fo.normal
+        flow.normal += exits + broke
+
+    def assign(self, t: ast.AST, v: Any, st: State) -> State:
+        if isinstance(t, ast.Name):
+            return st.set(t.id, v)
+        if isinstance(t, (ast.Tuple, ast.List)):
+            if isinstance(v, (tuple, list)) and len(v) == len(t.elts):
+                for e, x in zip(t.elts, v):
+                    st = self.assign(e, x, st)
+                return st
+            if isinstance(v, ASeq):
+                for e in t.elts:
+                    st = self.assign(e, v.elem, st)
+                return st
+            if v is UNKNOWN:
+                for e in t.elts:
+                    st = self.assign(e, UNKNOWN, st)
+                return st
+            raise Unsupported("tuple unpacking of a non-tuple value")
+        if isinstance(t, (ast.Attribute, ast.Subscript)):
+            return st  # stores into objects are not modelled (no analysed function depends on them)
+        raise Unsupported(f"assignment target {type(t).__name__}")
+
+    # ------------------------------------------------------------------ conditions
+    def eval_forking(self, e: ast.AST, st: State) -> list[tuple[Any, State]]:
+        """Like eval, but a boolean-valued test over strings forks the state so that the stored
+        boolean stays correlated with the refined string."""
+        if isinstance(e, (ast.Compare, ast.BoolOp)) or (isinstance(e, ast.UnaryOp) and isinstance(e.op, ast.Not)):
+            try:
+                t, f = self.branch(e, st)
+            except Unsupported:
+                return self.eval(e, st)
+            return [(True, s) for s in t] + [(False, s) for s in f]
+        return self.eval(e, st)
+
+    def branch(self, test: ast.AST, st: State) -> tuple[list[State], list[State]]:
+        if isinstance(test, ast.UnaryOp) and isinstance(test.op, ast.Not):
+            t, f = self.branch(test.operand, st)
+            return f, t
+        if isinstance(test, ast.BoolOp):
+            if isinstance(test.op, ast.And):
+                trues, falses = [st], []
+                for v in test.values:
+                    nt = []
+                    for s in trues:
+                        t, f = self.branch(v, s)
+                        nt += t
+                        falses += f
+                    trues = nt
+                return trues, falses
+            trues, falses = [], [st]
+            for v in test.values:
+                nf = []
+                for s in falses:
+                    t, f = self.branch(v, s)
+                    trues += t
+                    nf += f
+                falses = nf
+            return trues, falses
+        r = self._string_test(test, st)
+        if r is not None:
+            return r
+        trues, falses = [], []
+        for v, s in self.eval(test, st):
+            if v is UNKNOWN or isinstance(v, AInt):
+                if isinstance(test, ast.Name) and v is UNKNOWN:
+                    trues.append(s.set(test.id, True))
+                    falses.append(s.set(test.id, False))
+                else:
+                    trues.append(s)
+                    falses.append(s)
+            elif isinstance(v, AStr):
+                ne = L_length(self.K, 1, None)
+                a, b = v.map(lambda d: d & ne), v.map(lambda d: d - ne)
+                if not a.dead():
+                    trues.append(s.set(test.id, a) if isinstance(test, ast.Name) else s)
+                if not b.dead():
+                    falses.append(s.set(test.id, b) if isinstance(test, ast.Name) else s)
+            elif isinstance(v, ASeq):
+                if v.hi is None or v.hi > 0:
+                    trues.append(s)
+                if v.lo == 0:
+                    falses.append(s)
+            elif isinstance(v, AObj):
+                trues.append(s)
+            else:
+                (trues if v else falses).append(s)
+        return trues, falses
+
+    def _string_test(self, test: ast.AST, st: State) -> tuple[list[State], list[State]] | None:
+        """Tests whose truth is membership of one string expression in a regular language."""
+        neg = False
+        subject: ast.AST | None = None
+        F: DFA | None = None
+        if isinstance(test, ast.Compare) and len(test.ops) == 1:
+            op, l, r = type(test.ops[0]), test.left, test.comparators[0]
+            cnt = self._count_expr(l, st)
+            if cnt is None and self._count_expr(r, st) is not None and op in _CMP_FLIP:
+                op, l, r = _CMP_FLIP[op], r, l
+                cnt = self._count_expr(l, st)
+            if cnt is not None:
+                k = self._concrete_int(r, st)
+                if k is None:
+                    return None
+                rng = _int_range(op, k)
+                if rng is None:
+                    return None
+                subject, atoms = cnt
+                lo, hi, neg = rng
+                F = L_count(self.K, atoms, lo, hi)
+            elif op in (ast.Eq, ast.NotEq, ast.In, ast.NotIn):
+                lv = self._maybe_const(l, st)
+                rv = self._maybe_const(r, st)
+                if op in (ast.Eq, ast.NotEq):
+                    if isinstance(rv, str) and not isinstance(lv, str):
+                        subject, F = l, self.lit(rv)
+                    elif isinstance(lv, str) and not isinstance(rv, str):
+                        subject, F = r, self.lit(lv)
+                    else:
+                        return None
+                    neg = op is ast.NotEq
+                else:
+                    if isinstance(rv, (set, frozenset, list, tuple)) and all(isinstance(x, str) for x in rv) and not isinstance(lv, str):
+                        subject, F = l, L_union(self.K, [self.lit(x) for x in rv])
+                    elif isinstance(rv, str) and not isinstance(lv, (str, type(None))):
+                        # substring test of a single abstract character in a constant string
+                        subject, F = l, L_chars(self.K, self.chars_of(rv)) if rv else L_empty(self.K)
+                        if lv is not _NOCONST:
+                            return None
+                    else:
+                        return None
+                    neg = op is ast.NotIn
+                if not self._is_stringy(subject, st):
+                    return None
+            else:
+                return None
+        elif isinstance(test, ast.Call) and isinstance(test.func, ast.Attribute):
+            m = test.func.attr
+            if m in _STR_PREDS and not test.args:
+                f = _STR_PREDS[m]
+                if f is None:
+                    return None
+                subject, F = test.func.value, L_chars(self.K, self.A.select(f), 1, None)
+            elif m in ("startswith", "endswith") and len(test.args) == 1:
+                c = self._maybe_const(test.args[0], st)
+                if not isinstance(c, str):
+                    return None
+                w = self.lit(c)
+                subject = test.func.value
+                F = w.concat(L_all(self.K)) if m == "startswith" else L_all(self.K).concat(w)
+            else:
+                return None
+            if not self._is_stringy(subject, st):
+                return None
+        else:
+            return None
+        trues, falses = [], []
+        for base, chain, v, s in self.sym_str(subject, st):
+            if not isinstance(v, AStr):
+                if v is UNKNOWN:
+                    trues.append(s)
+                    falses.append(s)
+                    continue
+                v = self.to_astr(v)
+            Ft, Ff = (F.complement(), F) if neg else (F, F.complement())
+            for lang, bucket in ((Ft, trues), (Ff, falses)):
+                hit = v.map(lambda d: d & lang)
+                if hit.dead():
+                    continue
+                if base is not None and isinstance(s.env.get(base), AStr):
+                    pre = lang
+                    for t in reversed(chain):
+                        pre = pre.preimage(t)
+                    x = s.env[base].map(lambda d: d & pre)
+                    if x.dead():
+                        continue
+                    bucket.append(s.set(base, x))
+                else:
+                    bucket.append(s)
+        return trues, falses
+
+    def _is_stringy(self, e: ast.AST, st: State) -> bool:
+        if isinstance(e, ast.Name):
+            v = st.env.get(e.id, _NOCONST)
+            return isinstance(v, (AStr, str))
+        return isinstance(e, (ast.Subscript, ast.Call, ast.JoinedStr, ast.BinOp, ast.Attribute))
+
+    def _maybe_const(self, e: ast.AST, st: State) -> Any:
+        if isinstance(e, ast.Constant):
+            return e.value
+        if isinstance(e, ast.Name):
+            if e.id in st.env:
+                v = st.env[e.id]
+                return v if isinstance(v, (str, int, bool, set, frozenset, list, tuple, type(None))) and not isinstance(v, AStr) else _NOCONST
+            if e.id in self.consts:
+                return self.const(e.id)
+            return _NOCONST
+        if isinstance(e, (ast.Tuple, ast.List, ast.Set)):
+            vs = [self._maybe_const(x, st) for x in e.elts]
+            return _NOCONST if any(v is _NOCONST for v in vs) else tuple(vs)
+        return _NOCONST
+
+    def _concrete_int(self, e: ast.AST, st: State) -> int | None:
+        try:
+            vs = self.eval(e, st)
+        except Unsupported:
+            return None
+        if len(vs) == 1 and isinstance(vs[0][0], int) and not isinstance(vs[0][0], bool):
+            return vs[0][0]
+        return None
+
+    def _count_expr(self, e: ast.AST, st: State) -> tuple[ast.AST, frozenset] | None:
+        """len(S) / sum(pred(c) for c in S) / sum(1 for c in S if pred(c)) / len([c for c in S if pred(c)])
+        -> (S, atoms counted)."""
+        if not (isinstance(e, ast.Call) and isinstance(e.func, ast.Name) and len(e.args) == 1 and not e.keywords):
+            return None
+        a = e.args[0]
+        if e.func.id == "len":
+            if isinstance(a, (ast.ListComp, ast.GeneratorExp)):
+                r = self._comp_filter(a, st, want_elt_var=True)
+                return r
+            if self._is_stringy(a, st):
+                return a, self.A.all_atoms
+            return None
+        if e.func.id == "sum" and isinstance(a, (ast.GeneratorExp, ast.ListComp)):
+            return self._comp_filter(a, st, want_elt_var=False)
+        return None
+
+    def _comp_filter(self, comp: ast.AST, st: State, want_elt_var: bool) -> tuple[ast.AST, frozenset] | None:
+        if len(comp.generators) != 1:
+            return None
+        g = comp.generators[0]
+        if not isinstance(g.target, ast.Name) or not self._is_stringy(g.iter, st):
+            return None
+        var = g.target.id
+        atoms = self.A.all_atoms
+        for cond in g.ifs:
+            atoms = atoms & self.char_pred(cond, var, st)
+        elt = comp.elt
+        if isinstance(elt, ast.Name) and elt.id == var and want_elt_var:
+            return g.iter, atoms
+        if isinstance(elt, ast.Constant) and elt.value in (1, True) and not want_elt_var:
+            return g.iter, atoms
+        if not want_elt_var:
+            return g.iter, atoms & self.char_pred(elt, var, st)
+        return None
+
+    def char_pred(self, e: ast.AST, var: str, st: State) -> frozenset:
+        """Atoms c for which the expression over the single-character variable is true."""
+        if isinstance(e, ast.UnaryOp) and isinstance(e.op, ast.Not):
+            return self.A.all_atoms - self.char_pred(e.operand, var, st)
+        if isinstance(e, ast.BoolOp):
+            parts = [self.char_pred(v, var, st) for v in e.values]
+            out = parts[0]
+            for p in parts[1:]:
+                out = (out & p) if isinstance(e.op, ast.And) else (out | p)
+            return out
+        if isinstance(e, ast.Call) and isinstance(e.func, ast.Attribute) and isinstance(e.func.value, ast.Name) and e.func.value.id == var and not e.args:
+            f = _STR_PREDS.get(e.func.attr)
+            if f is not None:
+                return self.A.select(f)
+        if isinstance(e, ast.Compare) and len(e.ops) == 1 and isinstance(e.left, ast.Name) and e.left.id == var:
+            c = self._maybe_const(e.comparators[0], st)
+            op = type(e.ops[0])
+            if isinstance(c, str) and op in (ast.In, ast.NotIn):
+                s = self.chars_of(c) if c else frozenset()
+                return s if op is ast.In else self.A.all_atoms - s
+            if isinstance(c, str) and len(c) == 1 and op in (ast.Eq, ast.NotEq):
+                s = frozenset(self.A.word(c))
+                return s if op is ast.Eq else self.A.all_atoms - s
+        raise Unsupported(f"character predicate `{ast.unparse(e)[:60]}`")
+
+    # ------------------------------------------------------------------ symbolic string expressions
+    def sym_str(self, e: ast.AST, st: State) -> list[tuple[str | None, list[FST], Any, State]]:
+        """(base variable, transducer chain, value, state): value = chain applied to env[base]."""
+        if isinstance(e, ast.Name) and isinstance(st.env.get(e.id), AStr):
+            return [(e.id, [], st.env[e.id], st)]
+        step = self._fst_step(e, st)
+        if step is not None:
+            inner, t, pre = step
+            out = []
+            for base, chain, v, s in self.sym_str(inner, st):
+                if v is UNKNOWN:
+                    out.append((None, [], UNKNOWN, s))
+                    continue
+                v = self.to_astr(v)
+                if pre is not None:
+                    pre(v, s, e)
+                out.append((base, chain + [t], v.map(lambda d: d.image(t)), s))
+            return out
+        return [(None, [], v, s) for v, s in self.eval(e, st)]
+
+    def _fst_step(self, e: ast.AST, st: State):
+        """Recognise one string transformation: returns (inner expression, FST, pre-check) or None."""
+        A = self.A
+        if isinstance(e, ast.Subscript):
+            if not self._is_stringy(e.value, st):
+                return None
+            sl = e.slice
+            if isinstance(sl, ast.Slice):
+                if sl.step is not None:
+                    raise Unsupported("slice step")
+                lo = self._concrete_int(sl.lower, st) if sl.lower is not None else None
+                hi = self._concrete_int(sl.upper, st) if sl.upper is not None else None
+                if (sl.lower is not None and lo is None) or (sl.upper is not None and hi is None):
+                    raise Unsupported(f"slice bound of `{ast.unparse(e)[:60]}` is not a known integer")
+                if (lo or 0) < 0 or (hi is not None and hi < 0):
+                    raise Unsupported("negative slice bound")
+                if lo and hi is not None:
+                    raise Unsupported("two-sided slice")
+                if hi is not None:
+                    return e.value, fst_prefix(A, hi), None
+                return e.value, fst_drop(A, lo or 0), None
+            k = self._concrete_int(sl, st)
+            if k is None or k < 0:
+                raise Unsupported(f"index of `{ast.unparse(e)[:60]}` is not a known non-negative integer")
+
+            def pre(v: AStr, s: State, node: ast.AST, k: int = k) -> None:
+                short = v.all & L_length(self.K, 0, k)
+                if not short.is_empty():
+                    self.event("index-error", node, short, s)
+
+            return e.value, fst_charat(A, k), pre
+        if isinstance(e, ast.Call):
+            name = _dotted(e.func) or ""
+            if isinstance(e.func, ast.Attribute) and self._is_stringy(e.func.value, st):
+                m = e.func.attr
+                recv = e.func.value
+                if m == "lower" and not e.args:
+                    return recv, fst_map(A, A.lower_image), None
+                if m in ("strip", "lstrip", "rstrip"):
+                    if len(e.args) == 1:
+                        c = self._maybe_const(e.args[0], st)
+                        if not isinstance(c, str):
+                            raise Unsupported("strip() with a non-constant argument")
+                        C = self.chars_of(c)
+                    elif not e.args:
+                        C = A.select(str.isspace)
+                    else:
+                        raise Unsupported("strip() arguments")
+                    return recv, fst_strip(A, C, "all" if m in ("strip", "lstrip") else None, "all" if m in ("strip", "rstrip") else None), None
+                if m == "replace" and len(e.args) == 2:
+                    old, new = self._maybe_const(e.args[0], st), self._maybe_const(e.args[1], st)
+                    if isinstance(old, str) and isinstance(new, str) and len(old) == 1:
+                        o = A.word(old)[0]
+                        n = A.loose_word(new)
+                        return recv, fst_map(A, lambda a: n if a == o else (a,)), None
+                    raise Unsupported("str.replace with a multi-character or non-constant pattern")
+                if m in ("removeprefix", "removesuffix"):
+                    raise Unsupported(m)
+            # re.sub(pattern, repl, s) / PATTERN.sub(repl, s)
+            pat = repl = subj = None
+            if name.endswith(".sub") and isinstance(e.func, ast.Attribute):
+                owner = self._maybe_regex(e.func.value, st)
+                if name == "re.sub" and len(e.args) >= 3:
+                    p = self._maybe_const(e.args[0], st)
+                    if isinstance(p, str):
+                        pat, repl, subj = p, e.args[1], e.args[2]
+                    elif isinstance(p, ARegex):
+                        pat, repl, subj = p.pattern, e.args[1], e.args[2]
+                elif owner is not None and len(e.args) >= 2:
+                    pat, repl, subj = owner.pattern, e.args[0], e.args[1]
+            if pat is not None:
+                if len(e.args) > (3 if name == "re.sub" else 2) or e.keywords:
+                    raise Unsupported("re.sub with count/flags")
+                r = self._maybe_const(repl, st)
+                if not isinstance(r, str) or "\\" in r:
+                    raise Unsupported("re.sub replacement is not a plain constant string")
+                return subj, self.sub_fst(pat, r), None
+        return None
+
+    def _maybe_regex(self, e: ast.AST, st: State) -> "ARegex | None":
+        if isinstance(e, ast.Name):
+            v = st.env.get(e.id)
+            if isinstance(v, ARegex):
+                return v
+            if e.id in self.consts:
+                v = self.const(e.id)
+                if isinstance(v, ARegex):
+                    return v
+        return None
+
+    def sub_fst(self, pattern: str, repl: str) -> FST:
+        """Transducer for re.sub(pattern, repl, ·), derived from the regex AST; three shapes:
+        one character class; a run `[class]+`; alternatives of `^[class]` / `[class]$` (repl empty)."""
+        A = self.A
+        items = list(regex_parse(pattern).data)
+        rw = A.loose_word(repl)
+        if len(items) == 1:
+            op, av = items[0]
+            cl = class_atoms(A, op, av)
+            if cl is not None:
+                return fst_map(A, lambda a: rw if a in cl else (a,))
+            if str(op) in ("MAX_REPEAT", "POSSESSIVE_REPEAT"):
+                lo, hi, sub = av
+                sub = list(sub)
+                c1 = class_atoms(A, *sub[0]) if len(sub) == 1 else None
+                if c1 is not None and lo == 1 and hi == _sc.MAXREPEAT:
+                    return fst_collapse(A, c1, rw)
+        branches = None
+        if len(items) == 1 and str(items[0][0]) == "BRANCH":
+            branches = [list(b) for b in items[0][1][1]]
+        elif items and (_is_at(items[0], "AT_BEGINNING", "AT_BEGINNING_STRING") or _is_at(items[-1], "AT_END", "AT_END_STRING")):
+            branches = [items]
+        if branches is not None and repl == "":
+            left = right = None
+            C: frozenset | None = None
+            dollar_nl = False
+            for b in branches:
+                if len(b) != 2:
+                    raise Unsupported(f"re.sub pattern shape `{pattern}`")
+                if _is_at(b[0], "AT_BEGINNING", "AT_BEGINNING_STRING"):
+                    side, item = "left", b[1]
+                elif _is_at(b[1], "AT_END", "AT_END_STRING"):
+                    side, item = "right", b[0]
+                    dollar_nl = dollar_nl or str(b[1][1]) == "AT_END"
+                else:
+                    raise Unsupported(f"re.sub pattern shape `{pattern}`")
+                mode = "one"
+                cl = class_atoms(A, *item)
+                if cl is None and str(item[0]) in ("MAX_REPEAT", "POSSESSIVE_REPEAT"):
+                    lo, hi, sub = item[1]
+                    sub = list(sub)
+                    cl = class_atoms(A, *sub[0]) if len(sub) == 1 else None
+                    if cl is None or lo != 1 or hi != _sc.MAXREPEAT:
+                        raise Unsupported(f"re.sub pattern shape `{pattern}`")
+                    mode = "all"
+                if cl is None or (C is not None and cl != C):
+                    raise Unsupported(f"re.sub pattern shape `{pattern}`")
+                C = cl
+                if side == "left":
+                    left = mode
+                else:
+                    right = mode
+            return fst_strip(A, C, left, right, dollar_newline=dollar_nl and right == "one")
+        raise Unsupported(f"re.sub pattern shape `{pattern}`")
+
+    # ------------------------------------------------------------------ constants of the module
+    def const(self, name: str) -> Any:
+        if name not in self._const_cache:
+            vs = self.eval(self.consts[name], State())
+            self._const_cache[name] = vs[0][0]
+        return self._const_cache[name]
+
+    # ------------------------------------------------------------------ expressions
+    def evals(self, exprs: list[ast.AST], st: State) -> list[tuple[list, State]]:
+        acc: list[tuple[list, State]] = [([], st)]
+        for e in exprs:
+            nxt = []
+            for vals, s in acc:
+                for v, s2 in self.eval(e, s):
+                    nxt.append((vals + [v], s2))
+            acc = nxt
+        return acc
+
+    def eval(self, e: ast.AST, st: State) -> list[tuple[Any, State]]:
+        m = getattr(self, "e_" + type(e).__name__, None)
+        if m is None:
+            raise Unsupported(f"expression {type(e).__name__}: `{ast.unparse(e)[:60]}`")
+        return m(e, st)
+
+    def e_Constant(self, e, st):
+        return [(e.value, st)]
+
+    def e_Name(self, e, st):
+        if e.id in st.env:
+            return [(st.env[e.id], st)]
+        if e.id in self.consts:
+            return [(self.const(e.id), st)]
+        if e.id in ("True", "False", "None"):
+            return [({"True": True, "False": False, "None": None}[e.id], st)]
+        return [(UNKNOWN, st)]
+
+    def e_Await(self, e, st):
+        return self.eval(e.value, st)
+
+    def e_Tuple(self, e, st):
+        return [(tuple(vs), s) for vs, s in self.evals(e.elts, st)]
+
+    def e_List(self, e, st):
+        return [(list(vs), s) for vs, s in self.evals(e.elts, st)]
+
+    def e_Set(self, e, st):
+        out = []
+        for vs, s in self.evals(e.elts, st):
+            try:
+                out.append((frozenset(vs), s))
+            except TypeError:
+                raise Unsupported("set of abstract values")
+        return out
+
+    def e_Dict(self, e, st):
+        return [(UNKNOWN, st)]
+
+    def e_IfExp(self, e, st):
+        t, f = self.branch(e.test, st)
+        out = []
+        for s in t:
+            out += self.eval(e.body, s)
+        for s in f:
+            out += self.eval(e.orelse, s)
+        return out
+
+    def e_UnaryOp(self, e, st):
+        if isinstance(e.op, ast.Not):
+            t, f = self.branch(e.operand, st)
+            return [(False, s) for s in t] + [(True, s) for s in f]
+        out = []
+        for v, s in self.eval(e.operand, st):
+            if isinstance(v, int) and isinstance(e.op, ast.USub):
+                out.append((-v, s))
+            else:
+                out.append((UNKNOWN, s))
+        return out
+
+    def e_BoolOp(self, e, st):
+        t, f = self.branch(e, st)
+        return [(True, s) for s in t] + [(False, s) for s in f]
+
+    def e_Compare(self, e, st):
+        r = self._string_test(e, st)
+        if r is not None:
+            return [(True, s) for s in r[0]] + [(False, s) for s in r[1]]
+        out = []
+        for (vals, s) in self.evals([e.left] + list(e.comparators), st):
+            if any(isinstance(v, (AStr, AInt, ASeq, AObj, _Unknown)) for v in vals):
+                if len(e.ops) == 1 and isinstance(e.ops[0], (ast.Is, ast.IsNot)) and vals[1] is None and vals[0] is not UNKNOWN:
+                    out.append((isinstance(e.ops[0], ast.IsNot), s))
+                else:
+                    out.append((UNKNOWN, s))
+                continue
+            ok = True
+            left = vals[0]
+            import operator as _o
+            table = {ast.Eq: _o.eq, ast.NotEq: _o.ne, ast.Lt: _o.lt, ast.LtE: _o.le, ast.Gt: _o.gt, ast.GtE: _o.ge,
+                     ast.Is: _o.is_, ast.IsNot: _o.is_not, ast.In: lambda a, b: a in b, ast.NotIn: lambda a, b: a not in b}
+            try:
+                for op, right in zip(e.ops, vals[1:]):
+                    if not table[type(op)](left, right):
+                        ok = False
+                        break
+                    left = right
+            except TypeError:
+                raise Unsupported(f"comparison `{ast.unparse(e)[:60]}`")
+            out.append((ok, s))
+        return out
+
+    def e_BinOp(self, e, st):
+        out = []
+        for (l, r), s in self.evals([e.left, e.right], st):
+            if l is UNKNOWN or r is UNKNOWN:
+                out.append((UNKNOWN, s))
+            elif isinstance(e.op, ast.Add) and (isinstance(l, (AStr, str)) and isinstance(r, (AStr, str))):
+                if isinstance(l, str) and isinstance(r, str):
+                    out.append((l + r, s))
+                else:
+                    out.append((self.concat([l, r]), s))
+            elif isinstance(l, int) and isinstance(r, int):
+                import operator as _o
+                f = {ast.Add: _o.add, ast.Sub: _o.sub, ast.Mult: _o.mul, ast.FloorDiv: _o.floordiv, ast.Mod: _o.mod}.get(type(e.op))
+                if f is None:
+                    raise Unsupported("integer operator")
+                out.append((f(l, r), s))
+            elif isinstance(l, tuple) and isinstance(r, tuple) and isinstance(e.op, ast.Add):
+                out.append((l + r, s))
+            elif isinstance(l, (AInt, int)) and isinstance(r, (AInt, int)):
+                out.append((AInt(), s))
+            else:
+                raise Unsupported(f"operator in `{ast.unparse(e)[:60]}`")
+        return out
+
+    def concat(self, parts: list) -> AStr:
+        """Concatenation with provenance: random as soon as one part is random."""
+        plain = L_eps(self.K)
+        rand = L_empty(self.K)
+        for p in parts:
+            p = self.to_astr(p)
+            rand = rand.concat(p.all) | plain.concat(p.rand)
+            plain = plain.concat(p.plain)
+        return AStr(plain, rand)
+
+    def e_JoinedStr(self, e, st):
+        exprs = []
+        for v in e.values:
+            if isinstance(v, ast.FormattedValue):
+                if v.format_spec is not None or v.conversion not in (-1, ord("s")):
+                    raise Unsupported("f-string format spec / conversion")
+                exprs.append(v.value)
+            else:
+                exprs.append(v)
+        out = []
+        for vals, s in self.evals(exprs, st):
+            if any(v is UNKNOWN for v in vals):
+                out.append((UNKNOWN, s))
+            else:
+                out.append((self.concat(vals), s))
+        return out
+
+    def e_Subscript(self, e, st):
+        if self._fst_step(e, st) is not None:
+            return [(v, s) for _b, _c, v, s in self.sym_str(e, st)]
+        out = []
+        for v, s in self.eval(e.value, st):
+            if v is UNKNOWN:
+                out.append((UNKNOWN, s))
+                continue
+            if isinstance(e.slice, ast.Slice):
+                lo = self._concrete_int(e.slice.lower, s) if e.slice.lower is not None else None
+                hi = self._concrete_int(e.slice.upper, s) if e.slice.upper is not None else None
+                if isinstance(v, (tuple, list, str)):
+                    out.append((v[lo:hi], s))
+                    continue
+                raise Unsupported(f"slice of {type(v).__name__}")
+            k = self._concrete_int(e.slice, s)
+            if isinstance(v, (tuple, list, str)) and k is not None:
+                if not -len(v) <= k < len(v):
+                    self.event("index-error", e, None, s)
+                    continue
+                out.append((v[k], s))
+            elif isinstance(v, ASeq):
+                out.append((v.elem, s))
+            elif isinstance(v, AStr):
+                for _b, _c, v2, s2 in self.sym_str(e, s):
+                    out.append((v2, s2))
+            else:
+                raise Unsupported(f"subscript of {type(v).__name__}")
+        return out
+
+    def e_Attribute(self, e, st):
+        name = _dotted(e)
+        if name and name in self.hooks:
+            return self.hooks[name](self, e, [], {}, st)
+        out = []
+        for v, s in self.eval(e.value, st):
+            if isinstance(v, AObj):
+                if e.attr in v.attrs:
+                    out.append((v.attrs[e.attr], s))
+                    continue
+                h = self.hooks.get(f"{v.kind}.{e.attr}")
+                if h is not None:
+                    out += h(self, e, [v], {}, s)
+                    continue
+                raise Unsupported(f"attribute {e.attr} of {v.kind}")
+            out.append((UNKNOWN, s))
+        return out
+
+    def e_GeneratorExp(self, e, st):
+        if len(e.generators) != 1 or e.generators[0].ifs:
+            raise Unsupported("comprehension shape")
+        g = e.generators[0]
+        out = []
+        for it, s in self.eval(g.iter, st):
+            if isinstance(it, (tuple, list)):
+                vals = []
+                for x in it:
+                    r = self.eval(e.elt, self.assign(g.target, x, s))
+                    if len(r) != 1:
+                        raise Unsupported("forking comprehension element")
+                    vals.append(r[0][0])
+                out.append((tuple(vals), s))
+            elif isinstance(it, ASeq):
+                r = self.eval(e.elt, self.assign(g.target, it.elem, s))
+                if len(r) != 1:
+                    raise Unsupported("forking comprehension element")
+                out.append((ASeq(r[0][0], it.lo, it.hi), s))
+            elif it is UNKNOWN:
+                out.append((UNKNOWN, s))
+            else:
+                raise Unsupported(f"comprehension over {type(it).__name__}")
+        return out
+
+    e_ListComp = e_GeneratorExp
+
+    def join(self, sep: Any, seq: Any) -> Any:
+        if seq is UNKNOWN or sep is UNKNOWN:
+            return UNKNOWN
+        if isinstance(seq, (tuple, list)):
+            parts: list = []
+            for i, x in enumerate(seq):
+                if i:
+                    parts.append(sep)
+                parts.append(x)
+            return self.concat(parts) if parts else ""
+        if isinstance(seq, ASeq):
+            el = self.to_astr(seq.elem)
+            sp = self.to_astr(sep)
+            if seq.hi is not None and seq.hi > 70:
+                raise Unsupported("long sequence")
+            any_rand = not (el.rand.is_empty() and sp.rand.is_empty())
+            E, S = el.all, sp.all
+            unit = S.concat(E)
+            if seq.lo == 0:
+                base = L_eps(self.K)
+                lo, hi = 0, seq.hi
+                body = E.concat(_power_any(unit, 0, None if hi is None else hi - 1)) if (hi is None or hi >= 1) else L_empty(self.K)
+                lang = base | body
+            else:
+                lang = E.concat(_power_any(unit, seq.lo - 1, None if seq.hi is None else seq.hi - 1))
+            return AStr(L_empty(self.K), lang) if any_rand else AStr(lang)
+        raise Unsupported(f"join over {type(seq).__name__}")
+
+    def e_Call(self, e, st):
+        name = _dotted(e.func)
+        # transformations of strings
+        if self._fst_step(e, st) is not None:
+            return [(v, s) for _b, _c, v, s in self.sym_str(e, st)]
+        if name in self.hooks:
+            out = []
+            for vals, s in self.evals(list(e.args) + [k.value for k in e.keywords], st):
+                args = vals[: len(e.args)]
+                kw = {k.arg: v for k, v in zip(e.keywords, vals[len(e.args):])}
+                out += self.hooks[name](self, e, args, kw, s)
+            return out
+        if isinstance(e.func, ast.Attribute) and e.func.attr == "join" and len(e.args) == 1:
+            out = []
+            for (sep, seq), s in self.evals([e.func.value, e.args[0]], st):
+                out.append((self.join(sep, seq), s))
+            return out
+        if isinstance(e.func, ast.Attribute):
+            # method of an abstract object
+            out = []
+            handled = False
+            for v, s in self.eval(e.func.value, st):
+                if isinstance(v, AObj) and f"{v.kind}.{e.func.attr}" in self.hooks:
+                    handled = True
+                    for vals, s2 in self.evals(list(e.args) + [k.value for k in e.keywords], s):
+                        args = vals[: len(e.args)]
+                        kw = {k.arg: x for k, x in zip(e.keywords, vals[len(e.args):])}
+                        out += self.hooks[f"{v.kind}.{e.func.attr}"](self, e, [v] + args, kw, s2)
+                elif isinstance(v, (AStr, str)) and e.func.attr in _STR_PREDS:
+                    t, f = self.branch(e, s)
+                    return [(True, x) for x in t] + [(False, x) for x in f]
+                elif isinstance(v, (AStr, str)) and e.func.attr == "encode":
+                    handled = True
+                    out.append((v, s))
+                else:
+                    out.append((UNKNOWN, s))
+            if handled or out:
+                return out
+        if name in self.functions:
+            fn = self.functions[name]
+            out = []
+            for vals, s in self.evals(list(e.args) + [k.value for k in e.keywords], st):
+                params = [p.arg for p in fn.args.posonlyargs + fn.args.args]
+                args = dict(zip(params, vals[: len(e.args)]))
+                args.update({k.arg: v for k, v in zip(e.keywords, vals[len(e.args):])})
+                for rv, fs in self.call_function(fn, args, s.meta):
+                    out.append((rv, State(s.env, fs.meta)))
+            return out
+        if name == "len" and len(e.args) == 1:
+            out = []
+            for v, s in self.eval(e.args[0], st):
+                if isinstance(v, (str, tuple, list, set, frozenset, dict)):
+                    out.append((len(v), s))
+                else:
+                    out.append((AInt() if isinstance(v, (AStr, ASeq)) else UNKNOWN, s))
+            return out
+        if name == "str" and len(e.args) == 1:
+            return [((v if isinstance(v, (AStr, str)) or v is UNKNOWN else self.to_astr(v)), s) for v, s in self.eval(e.args[0], st)]
+        if name == "range":
+            out = []
+            for vals, s in self.evals(list(e.args), st):
+                out.append((range(*vals) if all(isinstance(v, int) for v in vals) else UNKNOWN, s))
+            return out
+        if name in ("bool",) and len(e.args) == 1:
+            t, f = self.branch(e.args[0], st)
+            return [(True, s) for s in t] + [(False, s) for s in f]
+        if name in ("sorted", "list", "tuple", "set", "frozenset") and len(e.args) == 1:
+            out = []
+            for v, s in self.eval(e.args[0], st):
+                if isinstance(v, (set, frozenset, list, tuple)) and not any(isinstance(x, (AStr, AInt)) for x in v):
+                    out.append(({"sorted": sorted, "list": list, "tuple": tuple, "set": frozenset, "frozenset": frozenset}[name](v), s))
+                else:
+                    out.append((v if isinstance(v, ASeq) else UNKNOWN, s))
+            return out
+        # anything else: evaluate the arguments for their events, result unknown
+        out = []
+        for _vals, s in self.evals(list(e.args) + [k.value for k in e.keywords], st):
+            out.append((UNKNOWN, s))
+        return out
+
+
+class ARegex:
+    def __init__(self, pattern: str):
+        self.pattern = pattern
+
+    def key(self) -> tuple:
+        return ("R", self.pattern)
+
+
+_NOCONST = object()
+
+
+def _power_any(d: DFA, lo: int, hi: int | None) -> DFA:
+    out = L_eps(d.K)
+    for _ in range(lo):
+        out = out.concat(d)
+    if hi is None:
+        return out.concat(d.star())
+    opt = d.optional()
+    for _ in range(hi - lo):
+        out = out.concat(opt)
+    return out
+
+
+def _as_load(t: ast.AST) -> ast.AST:
+    import copy
+
+    n = copy.copy(t)
+    n.ctx = ast.Load()
+    return n
+
+
+def _int_range(op: type, k: int) -> tuple[int, int | None, bool] | None:
+    """count `op` k  ->  (lo, hi, negate)"""
+    if op is ast.Lt:
+        return (0, k - 1, False) if k >= 1 else (0, 0, True) if k == 0 and False else ((0, -1, False) if False else _empty_range(k))
+    if op is ast.LtE:
+        return (0, k, False) if k >= 0 else _empty_range(0)
+    if op is ast.Gt:
+        return (max(k + 1, 0), None, False)
+    if op is ast.GtE:
+        return (max(k, 0), None, False)
+    if op is ast.Eq:
+        return (k, k, False) if k >= 0 else _empty_range(0)
+    if op is ast.NotEq:
+        return (k, k, True) if k >= 0 else (0, None, False)
+    return None
+
+
+def _empty_range(_k: int) -> tuple[int, int | None, bool]:
+    # "count < 0" etc.: never true  ==  not (count >= 0)
+    return (0, None, True)
+
+
+def hook_re_compile(interp: SInterp, node: ast.AST, args: list, kw: dict, st: State):
+    if len(args) == 1 and isinstance(args[0], str) and not kw:
+        return [(ARegex(args[0]), st)]
+    raise Unsupported("re.compile with flags or a non-constant pattern")
+
+
+def module_consts(m) -> dict[str, ast.AST]:
+    """Module-level `NAME = <expr>` assignments (value ASTs), for lazy constant evaluation."""
+    out: dict[str, ast.AST] = {}
+    for n in m.tree.body:
+        if isinstance(n, ast.Assign) and len(n.targets) == 1 and isinstance(n.targets[0], ast.Name):
+            out[n.targets[0].id] = n.value
+        elif isinstance(n, ast.AnnAssign) and isinstance(n.target, ast.Name) and n.value is not None:
+            out[n.target.id] = n.value
+    return out
+
+
+def collect_literals(nodes: Iterable[ast.AST]) -> tuple[set, list]:
+    """Characters / character sets mentioned by string constants and regex patterns in the given ASTs:
+    strings of up to 3 characters contribute singletons, longer ones a set; every constant that parses
+    as a regex and is used as first argument of re.* contributes its literals and ranges."""
+    singles: set = set()
+    sets: list = []
+    for root in nodes:
+        for n in ast.walk(root):
+            if isinstance(n, ast.Call):
+                nm = _dotted(n.func) or ""
+                if nm.startswith("re.") and n.args and isinstance(n.args[0], ast.Constant) and isinstance(n.args[0].value, str):
+                    s1, s2 = regex_charsets(n.args[0].value)
+                    singles |= s1
+                    sets += s2
+            if isinstance(n, ast.Constant) and isinstance(n.value, str) and n.value.isascii():
+                if len(n.value) <= 3:
+                    singles |= set(n.value)
+                elif len(n.value) <= 64:
+                    sets.append(set(n.value))
+    return singles, sets
